@@ -1,5 +1,5 @@
 """summarise a cbmc --json-ui --trace output: inputs (nondet initial state / callee contract choices) per failed obligation"""
-import json
+import json, re
 
 def load(path):
     out = open(path).read()
@@ -13,39 +13,68 @@ def val(v):
     if v is None:
         return "?"
     if "data" in v:
-        return v["data"]
+        return str(v["data"])
     if "elements" in v:
         return "{" + ",".join(val(e.get("value")) for e in v["elements"][:12]) + ("..." if len(v["elements"]) > 12 else "") + "}"
     if "members" in v:
         return "{" + ",".join("." + m.get("name", "?") + "=" + val(m.get("value")) for m in v["members"][:16]) + "}"
     return v.get("name", "?")
 
-def excerpt(path, props, maxlines=120):
+ZERO = re.compile(r"^(0|0u|0ul|0l|FALSE|NULL|\(\(.*\)NULL\)|/\*enum\*/\w+_(INVALID|IDLE|NONE))$")
+
+def inputs_and_steps(trace):
+    """returns (inputs: ordered dict lhs->value of world/ghost/harness globals before harness(), steps after)"""
+    inputs, steps, in_h = {}, [], False
+    for st in trace:
+        if st.get("hidden"):
+            continue
+        t = st.get("stepType")
+        loc = st.get("sourceLocation", {})
+        if t == "function-call" and st.get("function", {}).get("displayName") == "harness":
+            in_h = True
+            continue
+        if t == "assignment":
+            lhs = st.get("lhs", "")
+            v = st.get("value", {})
+            if "members" in v or "elements" in v or "$pad" in lhs:
+                continue
+            if not in_h:
+                if re.match(r"^(V_|G_|H_)", lhs):
+                    inputs[lhs] = val(v)
+            else:
+                if lhs.startswith("__CPROVER") or "write_set" in lhs or "__car" in lhs or "contract_" in lhs:
+                    continue
+                steps.append("%s = %s   (%s:%s)" % (lhs, val(v), loc.get("function", ""), loc.get("line", "")))
+        elif t == "function-call" and in_h:
+            n = st.get("function", {}).get("displayName", "")
+            if not n.startswith("__CPROVER"):
+                steps.append("call %s" % n)
+        elif t == "failure":
+            steps.append("FAILURE %s %s:%s" % (st.get("reason", ""), loc.get("file", ""), loc.get("line", "")))
+    return inputs, steps
+
+def excerpt(path, props, maxlines=160):
     res = load(path)
     lines = []
     for r in res:
         if r.get("property") not in props or "trace" not in r:
             continue
+        inputs, steps = inputs_and_steps(r["trace"])
         lines.append("== %s: %s" % (r["property"], r.get("description")))
-        n = 0
-        for st in r["trace"]:
-            if st.get("hidden"):
-                continue
-            t = st.get("stepType")
-            loc = st.get("sourceLocation", {})
-            fn = loc.get("function", "")
-            if t == "assignment":
-                lhs = st.get("lhs", "")
-                if lhs.startswith("__CPROVER") or "$tmp" in lhs or lhs.startswith("return_value"):
-                    pass
-                lines.append("  %s = %s   (%s:%s)" % (lhs, val(st.get("value")), fn, loc.get("line", "")))
-                n += 1
-            elif t == "function-call":
-                lines.append("  call %s" % st.get("function", {}).get("displayName", ""))
-            elif t == "failure":
-                lines.append("  FAILURE %s %s:%s" % (st.get("reason", ""), loc.get("file", ""), loc.get("line", "")))
-            if n > maxlines:
-                lines.append("  ...")
-                break
+        lines.append("-- non-zero inputs (initial state of the verification world; everything not listed is 0/NULL):")
+        nz = [(k, v) for k, v in inputs.items() if not ZERO.match(v)]
+        for k, v in nz[:200]:
+            lines.append("  %s = %s" % (k, v))
+        lines.append("-- execution:")
+        lines += ["  " + s for s in steps[:maxlines]]
+        if len(steps) > maxlines:
+            lines.append("  ... (%d more steps)" % (len(steps) - maxlines))
+            lines += ["  " + s for s in steps[-25:]]
         break
     return lines
+
+def initial_state(path, prop):
+    for r in load(path):
+        if r.get("property") == prop and "trace" in r:
+            return inputs_and_steps(r["trace"])
+    return None, None
